@@ -21,9 +21,11 @@ func (s ExploreRecursiveEdge) Interests() []datamodel.PathSegment {
 	return []datamodel.PathSegment{}
 }
 
-// Explore should ultimately never get called for an ExploreRecursiveEdge selector
+// Explore is reached when an edge is a direct member of the union that forms a
+// recursion's sequence (e.g. R(limit, union(edge, all(edge)))): such an edge has
+// not consumed any step yet, so it selects nothing further.
 func (s ExploreRecursiveEdge) Explore(n datamodel.Node, p datamodel.PathSegment) (Selector, error) {
-	panic("Traversed Explore Recursive Edge Node With No Parent")
+	return nil, nil
 }
 
 // Decide should almost never get called for an ExploreRecursiveEdge selector
